@@ -23,3 +23,4 @@ PY
   done
   git -C /repo worktree remove --force $wt 2>/dev/null; rm -rf $wt
 '
+rm -rf /verif/.target/alt_* /verif/.work/alt_*
